@@ -406,6 +406,10 @@ def same(a, b):
         return VBool(a.oid == b.oid)
     if isinstance(a, VFunc) or isinstance(b, VFunc):
         return VBool(a is b)
+    if isinstance(a, VSeq) and isinstance(b, VSeq):
+        return VBool(a.t == b.t) if a.t.sort() == b.t.sort() else VBool(False)
+    if isinstance(a, VU) and isinstance(b, VU):
+        return a == b
     if isinstance(a, (VObj, VOpaque)) and isinstance(b, (VObj, VOpaque)):
         return VBool(a.t == b.t)
     if isinstance(a, VBool) and isinstance(b, VBool):
